@@ -319,6 +319,36 @@ class Check(object):
                 self.discharged.append(full)
         return allok
 
+    def coqchk(self, modules, timeout=2400):
+        """thorough tier: re-check the compiled property modules and everything they depend on with
+        the independent checker coqchk and record the axioms it reports (coqchk -o).  A failing
+        coqchk is a broken proof obligation."""
+        mods = ['SpyneV.' + m for m in modules]
+        p = subprocess.run(['timeout', str(timeout), 'coqchk', '-o', '-silent', '-R', COQ, 'SpyneV'] + mods,
+                           cwd=COQ, stdout=subprocess.PIPE, stderr=subprocess.STDOUT, text=True)
+        out = p.stdout
+        summary = out[out.find('CONTEXT SUMMARY'):] if 'CONTEXT SUMMARY' in out else out[-1500:]
+        ok = p.returncode == 0 and 'CONTEXT SUMMARY' in out
+        def section(title):
+            m = re.search(r'\* %s:(.*?)(?=\n\* |\Z)' % re.escape(title), summary, re.S)
+            items = [x.strip() for x in (m.group(1) if m else '').split('\n') if x.strip()]
+            return [] if items == ['<none>'] else items
+        rep = {'modules': mods, 'ok': ok, 'axioms': section('Axioms'),
+               'type_in_type': section('Constants/Inductives relying on type-in-type'),
+               'unsafe_fixpoints': section('Constants/Inductives relying on unsafe (co)fixpoints'),
+               'assumed_positivity': section('Inductives whose positivity is assumed')}
+        self.extra['coqchk'] = rep
+        if not ok:
+            self.broken.append(('proof', 'coqchk ' + ' '.join(mods), out[-600:]))
+        for k in ('type_in_type', 'unsafe_fixpoints', 'assumed_positivity'):
+            if rep[k]:
+                self.broken.append(('source', 'coqchk:' + k, '; '.join(rep[k])[:300]))
+        bad = [a for a in rep['axioms'] if not any(x in a for x in STDLIB_AXIOMS)
+               and not re.search(r'PrimFloat|PrimInt63|Uint63|Float64|Int63|Sint63', a)]
+        if bad:
+            self.broken.append(('axiom', 'coqchk', 'axioms outside the standard library: %s' % bad[:5]))
+        return ok
+
     def check_sources(self):
         hits = scan_forbidden()
         for h in hits:
@@ -362,6 +392,13 @@ class Check(object):
         return path
 
     def finish(self, level='proof', checker_cmd=None):
+        if self.tier == 'thorough' and self.obligations and 'coqchk' not in self.extra \
+                and not any(b[0] == 'proof' for b in self.broken):
+            mods = sorted({o.rsplit('.', 1)[0] for o in self.obligations})
+            try:
+                self.coqchk(mods)
+            except Exception as e:
+                self.broken.append(('proof', 'coqchk', 'coqchk could not be run: %r' % e))
         for key, what in self.known_seen.items():
             self.say('KNOWN-FINDING: property=%s %s [%s]' % (self.pid, what, key))
         stale = [k for k in self.known_keys if k not in self.known_seen]
@@ -404,11 +441,15 @@ class Check(object):
         ev = {'property_id': self.pid, 'tier': self.tier, 'seed': self.seed, 'level': level,
               'coverage': cov, 'assumptions': self.assumptions,
               'wall_s': round(time.time() - self.t0, 2), 'violations': len(self.violations) + (1 if rc and not self.violations else 0)}
-        os.makedirs(os.path.join(ROOT, 'evidence'), exist_ok=True)
-        tmp = os.path.join(ROOT, 'evidence', '%s.json.tmp' % self.pid)
+        # evidence/ describes /repo itself; a run pointed at another tree (VERIF_REPO: seeded changes,
+        # builders' scratch trees) leaves it alone and writes under .scratch/
+        evdir = os.path.join(ROOT, 'evidence') if os.path.abspath(REPO) == '/repo' \
+            else os.path.join(SCRATCH, 'evidence-other-tree')
+        os.makedirs(evdir, exist_ok=True)
+        tmp = os.path.join(evdir, '%s.json.tmp' % self.pid)
         with open(tmp, 'w') as f:
             json.dump(ev, f, indent=1, default=repr, ensure_ascii=True)
-        os.replace(tmp, os.path.join(ROOT, 'evidence', '%s.json' % self.pid))
+        os.replace(tmp, os.path.join(evdir, '%s.json' % self.pid))
         cleanup_scratch()
         self.log('%s: %s in %.1fs (%d evaluations, %d/%d obligations)' % (
             self.pid, 'OK' if rc == 0 else 'ALARM', time.time() - self.t0, self.evaluations,
